@@ -393,6 +393,7 @@ def run(ctx, p):
         elif call == "timer_duration":
             args["tt"] = list(A.AcTimerType)[ctx.choice("arg", 2)]
             args["mins"] = ctx.int("mins", 0, 2879)
+            args["secs"] = ctx.int("secs", 0, 59)          # a seconds part: both generations treat it alike
         elif call == "zone_power":
             args["v"] = list(A.ZonePowerState)[ctx.choice("arg", 3)]
         elif call == "zone_damper":
@@ -429,7 +430,7 @@ def run(ctx, p):
                         elif call == "timer_clear":
                             await acobj.clear_quick_timer(args["tt"])
                         elif call == "timer_duration":
-                            v = shims.SxTimedelta.symbolic(args["mins"] * 60) if ctx.symbolic else datetime.timedelta(minutes=args["mins"])
+                            v = shims.SxTimedelta.symbolic(args["mins"] * 60 + args["secs"]) if ctx.symbolic else datetime.timedelta(minutes=args["mins"], seconds=args["secs"])
                             await acobj.set_quick_timer(args["tt"], v)
                         elif call == "zone_power":
                             await zone.set_power(args["v"])
